@@ -166,12 +166,15 @@ func (s *Stream) ReadFrom(r io.Reader) (n int64, err error) {
 		}
 
 		// the above read may have been unblocked by another goroutine calling stream.Close(), so we need
-		// to check that here
+		// to check that here. The check is made with writingM held, as Write does: a ReadFrom that found the
+		// stream open and then queued for writingM behind Close sent its data after the closing frame
+		// (flagged as closing, too), where the peer drops it, and reported the bytes as sent
+		s.writingM.Lock()
 		if s.isClosed() {
+			s.writingM.Unlock()
+			s.session.streamObfsBufPool.Put(buf)
 			return n, ErrBrokenStream
 		}
-
-		s.writingM.Lock()
 		s.writingFrame.Payload = (*buf)[frameHeaderLength : frameHeaderLength+read]
 		err = s.obfuscateAndSend(*buf, frameHeaderLength)
 		s.writingM.Unlock()
